@@ -91,7 +91,7 @@ def run_cases(cases, workers=None, timeout_s=None):
     if workers == 1 or len(names) == 1:
         return [_run_case(n) for n in names]
     ctx = mp.get_context("fork")
-    with ctx.Pool(workers, maxtasksperchild=1) as pool:
+    with ctx.Pool(workers) as pool:
         res = [pool.apply_async(_run_case, (n,)) for n in names]
         outs = []
         for n, r in zip(names, res):
@@ -216,6 +216,8 @@ def finish(prop, tier, seed, t0, outs, *, level="other", explanation, functions,
     todo = []
     count = {}
     unreplayed = []
+    # groups that no known finding explains are replayed first (never starved by the cap)
+    violations.sort(key=lambda cb: match_known(known, cb[0], cb[1]["obligation"]) is not None)
     for case, b in violations:
         k = (case, b["obligation"])
         count[k] = count.get(k, 0) + 1
